@@ -75,8 +75,14 @@ theorem dyn_init {F : Type} (s : BS F) (h1 : s.blockSize = 0) (h2 : s.targetBloc
     (h3 : 1 ≤ s.minBlockSize) (h4 : s.histosSize = s.slots.length) : Dyn s [] [] :=
   ⟨h1, by omega, by omega, by simp [doneCount]; omega, h4⟩
 
+/-- exact histogram shapes and totals `≤ 2^24` (sharper than `HistosOK`; what `BrotliOptimizeHistograms` needs) -/
+structure HSharp (mbs : MBSplit) : Prop where
+  l : ∀ i, i < mbs.litHistosSize → (mbs.litHistos.getD i []).length = 256 ∧ (mbs.litHistos.getD i []).sum ≤ 2 ^ 24
+  c : ∀ i, i < mbs.cmdHistosSize → (mbs.cmdHistos.getD i []).length = 704 ∧ (mbs.cmdHistos.getD i []).sum ≤ 2 ^ 24
+  d : ∀ i, i < mbs.distHistosSize → (mbs.distHistos.getD i []).length = 544 ∧ (mbs.distHistos.getD i []).sum ≤ 2 ^ 24
+
 /-- **the greedy builder is total and its result is well formed** -/
-theorem buildGreedy_ok {F : Type} (ops : FOps F) (hirr : OracleOK ops) (ring : Bytes) (start mask prevByte prevByte2 mode nc : Nat)
+theorem buildGreedy_ok' {F : Type} (ops : FOps F) (hirr : OracleOK ops) (ring : Bytes) (start mask prevByte prevByte2 mode nc : Nat)
     (scm : List Nat) (cmds : List Cmd) (mb hist : Bytes) (A np nd : Nat)
     (hR : RingHolds ring mask start mb) (h256 : ∀ b ∈ mb, b < 256) (hh256 : ∀ b ∈ hist, b < 256)
     (h64 : start + mb.length < two64) (hprev : prevByte = lastB hist ∧ prevByte2 = last2B hist) (hmode : mode < 4)
@@ -89,7 +95,7 @@ theorem buildGreedy_ok {F : Type} (ops : FOps F) (hirr : OracleOK ops) (ring : B
       Covers mbs.cmdHistos (trivialMap mbs.cmd.numTypes 1) 1
         (remTypes mbs.cmd 0 (mbs.cmd.lengths.getD 0 0)) (cmds.map fun c => (0, c.cmdPrefix)) ∧
       Covers mbs.distHistos (effMap mbs.distCmap mbs.distCmapSize mbs.dist.numTypes 4) 4
-        (remTypes mbs.dist 0 (mbs.dist.lengths.getD 0 0)) (distSymsOf cmds) := by
+        (remTypes mbs.dist 0 (mbs.dist.lengths.getD 0 0)) (distSymsOf cmds) ∧ HSharp mbs := by
   -- sizes
   have hsum := book_sum mb.length cmds 0 (Nat.zero_le _) hbook
   rw [Nat.zero_add] at hsum
@@ -173,7 +179,7 @@ theorem buildGreedy_ok {F : Type} (ops : FOps F) (hirr : OracleOK ops) (ring : B
   refine ⟨{ lit := lS.toSplit, cmd := cS.toSplit, dist := dS.toSplit, litCmap := cmap, litCmapSize := cmap.length,
             distCmap := [], distCmapSize := 0, litHistos := lS.flat, litHistosSize := lS.histosSize * nc,
             cmdHistos := cS.flat, cmdHistosSize := cS.histosSize, distHistos := dS.flat,
-            distHistosSize := dS.histosSize }, ?_, ?_, ?_, ?_, ?_⟩
+            distHistosSize := dS.histosSize }, ?_, ?_, ?_, ?_, ?_, ?_⟩
   · unfold buildGreedy
     simp only [hNL, ← hplain, ← hscm']
     rw [il1, Out.bind_ok, ic1, Out.bind_ok, id1, Out.bind_ok, g1, Out.bind_ok, g2, lf2, Out.bind_ok, g3, cf2, Out.bind_ok,
@@ -256,5 +262,31 @@ theorem buildGreedy_ok {F : Type} (ops : FOps F) (hirr : OracleOK ops) (ring : B
       unfold distSymsOf at hp
       obtain ⟨c, _, rfl⟩ := List.mem_map.mp hp
       exact distanceContext_lt c
+  · -- sharper histogram facts
+    refine ⟨fun i hi => ?_, fun i hi => ?_, fun i hi => ?_⟩
+    · have := histos_exact lf3 i (by rw [← lf6]; exact hi)
+      exact ⟨this.1, Nat.le_trans this.2 (by omega)⟩
+    · have := histos_exact cf3 i (by rw [Nat.mul_one, ← cf6]; exact hi)
+      exact ⟨this.1, Nat.le_trans this.2 (by omega)⟩
+    · have := histos_exact df3 i (by rw [Nat.mul_one, ← df6]; exact hi)
+      exact ⟨this.1, Nat.le_trans this.2 (by omega)⟩
+
+theorem buildGreedy_ok {F : Type} (ops : FOps F) (hirr : OracleOK ops) (ring : Bytes) (start mask prevByte prevByte2 mode nc : Nat)
+    (scm : List Nat) (cmds : List Cmd) (mb hist : Bytes) (A np nd : Nat)
+    (hR : RingHolds ring mask start mb) (h256 : ∀ b ∈ mb, b < 256) (hh256 : ∀ b ∈ hist, b < 256)
+    (h64 : start + mb.length < two64) (hprev : prevByte = lastB hist ∧ prevByte2 = last2B hist) (hmode : mode < 4)
+    (hst : StaticOK nc scm) (hA : A ≤ 544)
+    (hok : ∀ c ∈ cmds, cmdOK A np nd c = true) (hcl2 : ∀ c ∈ cmds, copyLen c ≠ 0 → 2 ≤ copyLen c)
+    (hbook : Book mb.length 0 cmds) (hsz1 : mb.length + 512 ≤ 2 ^ 24) (hsz2 : cmds.length + 1024 ≤ 2 ^ 24) :
+    ∃ mbs, buildGreedy ops ring start mask prevByte prevByte2 mode nc scm cmds = .ok mbs ∧ MBOK mbs A ∧
+      Covers mbs.litHistos (effMap mbs.litCmap mbs.litCmapSize mbs.lit.numTypes 64) 64
+        (remTypes mbs.lit 0 (mbs.lit.lengths.getD 0 0)) (litSymsOf mode hist mb 0 cmds) ∧
+      Covers mbs.cmdHistos (trivialMap mbs.cmd.numTypes 1) 1
+        (remTypes mbs.cmd 0 (mbs.cmd.lengths.getD 0 0)) (cmds.map fun c => (0, c.cmdPrefix)) ∧
+      Covers mbs.distHistos (effMap mbs.distCmap mbs.distCmapSize mbs.dist.numTypes 4) 4
+        (remTypes mbs.dist 0 (mbs.dist.lengths.getD 0 0)) (distSymsOf cmds) := by
+  obtain ⟨mbs, a1, a2, a3, a4, a5, _⟩ := buildGreedy_ok' ops hirr ring start mask prevByte prevByte2 mode nc scm cmds mb hist A np nd
+    hR h256 hh256 h64 hprev hmode hst hA hok hcl2 hbook hsz1 hsz2
+  exact ⟨mbs, a1, a2, a3, a4, a5⟩
 
 end BV.Greedy
